@@ -231,6 +231,37 @@ def traceSD (every : Nat) (keys : List K) (vals : List V) (tuples : List (List K
                              ("attrs", jPairs Json.str Json.int p.1.attr),
                              ("default", jRes (Res.ofDefault p.1.default))] else [])) :: t.2)
 
+/-! entry `sdn`: StrategyDict histories in which the NAME `"default"` is used (`sd["default"] = v`,
+    `del sd["default"]`, `del sd.default` while it is stored) — outside the property, run as coded
+    (`sdSetDefaultName`, `sdDelDefaultName`, `sdDelattrDefaultName`); model only, the property has no opinion -/
+
+inductive XOp where
+  | std (op : SOp K V)
+  | setdn (v : V)
+  | deldn
+  | delattrdn
+
+def dnKey : K := "default"
+
+def parseXOp (j : Json) : Except String XOp := do
+  match ← getArr j with
+  | [Json.str "set", Json.arr [Json.str "default"], v] => pure (.setdn (← getInt v))
+  | [Json.str "del", Json.str "default"] => pure .deldn
+  | [Json.str "delattr", Json.null] => pure .delattrdn
+  | _ => pure (.std (← parseSOp j))
+
+def xStep (s : SD K V) : XOp → SD K V × Res K V
+  | .std op => sdStep s op
+  | .setdn v => sdSetDefaultName s dnKey v
+  | .deldn => sdDelDefaultName s dnKey
+  | .delattrdn => sdDelattrDefaultName s dnKey
+
+def traceX (keys : List K) (vals : List V) (tuples : List (List K)) : SD K V → List XOp → List Json
+  | _, [] => []
+  | s, op :: ops =>
+    let m := xStep s op
+    Json.mkObj (("res", jRes m.2) :: viewSDModel m.1 keys vals tuples) :: traceX keys vals tuples m.1 ops
+
 def handle (entry : String) (j : Json) : Except String Json := do
   let keys ← getKeys (← field j "keys")
   let vals ← getList getInt (← field j "vals")
@@ -261,7 +292,15 @@ def handle (entry : String) (j : Json) : Except String Json := do
     let jops ← getArr (← field j "ops")
     let ops ← getList parseSOp (← field j "ops")
     let t := traceSD every keys vals tuples 0 (SD.empty) ({} : SDSpec K V) (ops.zip (jops.map isKeyCall))
-    pure <| Json.mkObj [("model", Json.arr t.1), ("spec", Json.arr t.2)]
+    -- "sd[k] is the last strategy assigned to k" read off the history alone (C15.37); `null` for a name
+    -- that the history deletes through its attribute (`del sd.k`: state dependent, excluded there)
+    let last := keys.map fun k =>
+      if ops.any (fun op => match op with | .delattr (some k') => k' == k | _ => false) then Json.null
+      else jOptVal (sdLastAssigned k ops none)
+    pure <| Json.mkObj [("model", Json.arr t.1), ("spec", Json.arr t.2), ("last", Json.arr last)]
+  | "sdn" =>
+    let ops ← getList parseXOp (← field j "ops")
+    pure <| Json.mkObj [("model", Json.arr (traceX keys vals tuples SD.empty ops))]
   | _ => throw s!"C15: unknown entry {entry}"
 
 end ALV.Driver.C15
